@@ -219,6 +219,37 @@ def _oracle_chunk_random(hs):
     return _oracle_histories(hs, True)
 
 
+def _long_jumps(kind):
+    import sys
+    from TexSoup.utils import Buffer
+    from TexSoup.category import categorize
+    from TexSoup.tokens import tokenize
+    old = sys.getrecursionlimit()
+    sys.setrecursionlimit(1000)
+    try:
+        if kind == 0:
+            items = list('ab' * 3000)
+            buf = Buffer(''.join(items))
+        else:
+            src = '\\x{a} ' * 1500
+            items = [str(t) for t in tokenize(categorize(src))]
+            buf = Buffer(tokenize(categorize(src)))
+        pos = 0
+        for move in (5, 1200, -700, 2500, -1, 1500, -3000):
+            try:
+                got = buf.forward(move) if move > 0 else buf.backward(-move)
+            except BaseException as e:      # noqa
+                return 'forward/backward(%d) at index %d of %d items raises %s' % (move, pos, len(items), type(e).__name__)
+            lo, hi = (pos, pos + move) if move > 0 else (pos + move, pos)
+            pos += move
+            want = ''.join(items[lo:hi])
+            if ''.join(map(str, got)) != want or buf.position != pos:
+                return 'move %d: got %r.. at %r, list model %r.. at %r' % (move, str(got)[:20], buf.position, want[:20], pos)
+        return None
+    finally:
+        sys.setrecursionlimit(old)
+
+
 def oracle(ctx, seeds, scale):
     r = Result()
     r.nontrivial = _util.Tally()
@@ -236,6 +267,13 @@ def oracle(ctx, seeds, scale):
     res = _util.pmap(_oracle_chunk_random, chunks)
     _collect(r, [x[:3] for x in res], 'random_histories_truncated_to_scope')
     r.bump('bfs_histories_leaving_scope_skipped', skipped)
+    # long sequences at the interpreter's DEFAULT recursion limit (the harness itself runs with a larger one): moves over
+    # thousands of items that were never looked at, string- and token-backed
+    x = _util.pmap(_long_jumps, [0, 1])
+    for kind, bad in zip(('string', 'tokens'), x):
+        r.count(('long', kind), True)
+        if bad:
+            r.fail('long-jump', bad, input={'kind': kind})
     h = ('s', 'abc', ['f:2', 'p:-1', 'r:-1:5', 'b:2', 'n', 'n', 'n', 'n'])
     r.sample({'request': L.request(*h), 'buffer': L.impl_run(*h), 'list+index': L.ref_run(*h), 'verdict': 'holds'})
     r.rule = ('TexSoup.utils.Buffer vs a plain list with an integer index (lib_buf.RefBuffer): output and cursor '
